@@ -116,9 +116,13 @@ def check(case: dict):
     return {"nt": nt, "labels": labels}
 
 
-def _exhaustive_cases(shard: int, nshards: int):
+def _exhaustive_medium(shard: int, nshards: int):
+    yield from _exhaustive_cases(shard, nshards, G.medium_shapes())
+
+
+def _exhaustive_cases(shard: int, nshards: int, shapes=None):
     k = 0
-    for r, c in G.small_shapes():
+    for r, c in (shapes or G.small_shapes()):
         cells = [[i, j] for i in range(r) for j in range(c)]
         for g in G.all_graphs(r, c):
             k += 1
@@ -150,6 +154,7 @@ def subs(tier: str):
             cases=_exhaustive_cases,
             exhaustive_flag=True,
         ),
+        *([] if quick else [Sub(name="exhaustive-2x4-2x5-1xN", check=check, kind="exhaustive", cases=_exhaustive_medium, exhaustive_flag=True)]),
         Sub(
             name="random",
             check=check,
